@@ -266,7 +266,7 @@ func (c16) Gen(rng *rand.Rand, tier string, idx int) Case {
 			[]string{"salias", strconv.Itoa(rng.Intn(2))}, []string{"talias", strconv.Itoa(rng.Intn(3))},
 			[]string{"envelope", strconv.Itoa(rng.Intn(3) / 2)},
 			[]string{"where", strconv.Itoa(rng.Intn(3) / 2)}, []string{"swap", strconv.Itoa((rng.Intn(4) / 3) * (1 + rng.Intn(7)))}, // bit i: pair i is written table side first
-			[]string{"nestkey", strconv.Itoa(rng.Intn(4) / 3)},
+			[]string{"nestkey", strconv.Itoa(rng.Intn(4) / 3)}, []string{"early", strconv.Itoa(rng.Intn(3) / 2)},
 			// pre 1: an earlier LEFT JOIN with MORE ON pairs on an empty second table precedes the
 			// modelled JOIN (identity on the observed columns; exercises per-JOIN key construction)
 			[]string{"pre", strconv.Itoa(rng.Intn(3) / 2)})
@@ -442,6 +442,12 @@ func c16SQL(c Case, arity int) [][][]string {
 	sql := c16JoinSQL(c, arity, "id, m.pid AS pid", "")
 	if err := s.Execute(sql); err != nil {
 		return [][][]string{{{"exec-error", hx(err.Error())}}}
+	}
+	if c04CfgVal(c, "early", "0") == "1" {
+		// rows sent before the JOIN table exists are refused (an error / a silent drop); once the table is registered
+		// the rows that follow are joined as if nothing had been refused
+		_, _ = s.EmitSync(map[string]interface{}{"id": -5, "k0": "early"})
+		s.Emit(map[string]interface{}{"id": -6, "k0": "early"})
 	}
 	src, err := s.RegisterTable("meta", nil)
 	if err != nil {
